@@ -14,7 +14,10 @@ CONSTANTS
   Grain = "alloc"
   Fixed = TRUE
   MaxMoves = 0
+  MaxPrep = 0
+  MaxThrows = 0
+  ThrowFixed = TRUE
   MaxOwner = 0
-INVARIANTS TypeOK Exclusive BlockAlive BookkeepingTruthful LargeEnough SizeRoundTrip HeapFallbackFreedOnce TrailerTruthful MtSafeNeverShares ReuseBlock ExtraCtorDtorOnce
+INVARIANTS TypeOK Exclusive BlockAlive BookkeepingTruthful LargeEnough SizeRoundTrip HeapFallbackFreedOnce TrailerTruthful MtSafeNeverShares BusyMeansInUse ReuseBlock ExtraCtorDtorOnce
 PROPERTIES ExtraUsableAtCreation WarmNoAlloc CompleteNoAlloc MoveNoAlloc
 CHECK_DEADLOCK FALSE
